@@ -87,6 +87,8 @@ pub fn base_info(case: &HistCase, facts: &Facts, foreign: &Option<Violation>) ->
             "gen" => "kind_gen",
             "probe" => "kind_probe",
             "exec" => "kind_exec",
+            "stream" => "kind_stream",
+            "comp" => "kind_comp",
             _ => "kind_other",
         });
     }
@@ -99,6 +101,13 @@ pub fn base_info(case: &HistCase, facts: &Facts, foreign: &Option<Violation>) ->
     if facts.task_wakes > 0 {
         info.classes.push("executor_task_woken");
     }
+    if facts.stream_items > 0 {
+        info.classes.push("stream_item_delivered");
+    }
+    if facts.stream_ends > 0 {
+        info.classes.push("stream_ended_and_removed");
+    }
+    info.counters.push(("stream_items", facts.stream_items as u64));
     info.counters.push(("task_polls", facts.task_polls as u64));
     info.counters.push(("callbacks", facts.callbacks as u64));
     info.counters.push(("dispatches", facts.dispatches as u64));
